@@ -205,9 +205,11 @@ def gen_sources(unit, external_all=False, canary=None):
             plan = dict(plan)
             plan["external_all"] = True
             plan["verify"] = []
-        if canary:
+        if canary is not None:
             plan = json.loads(json.dumps(plan))
-            for key, c in plan["contracts"].items():
+            for key, c in sorted(plan["contracts"].items()):
+                canary["n"] = canary.get("n", 0) + 1
+                cf = "vx_canary(%d)" % canary["n"]
                 if c.get("external") or key in plan["external"] or key in unit.get("canary_skip", []):
                     continue
                 sp = c.get("spec", "")
@@ -215,14 +217,14 @@ def gen_sources(unit, external_all=False, canary=None):
                 stripped = re.sub(r"//[^\n]*", "", sp)
                 if re.search(r"\bensures\b", stripped):
                     # insert right after the `ensures` keyword
-                    c["spec"] = re.sub(r"\bensures\b", "ensures vx_canary_false(),", sp, count=1)
+                    c["spec"] = re.sub(r"\bensures\b", "ensures " + cf + ",", sp, count=1)
                 else:
                     # keep `decreases` last
                     m = re.search(r"\bdecreases\b", sp)
                     if m:
-                        c["spec"] = sp[:m.start()] + "\n ensures vx_canary_false(),\n" + sp[m.start():]
+                        c["spec"] = sp[:m.start()] + "\n ensures " + cf + ",\n" + sp[m.start():]
                     else:
-                        c["spec"] = sp + "\n ensures vx_canary_false(),"
+                        c["spec"] = sp + "\n ensures " + cf + ","
         out = run_vx(plan)
         text += f"// ===== from {src['rel']} =====\n" + out["text"]
         helpers += out["helpers"]
@@ -240,7 +242,7 @@ def gen_unit(name, canary=False, outname=None):
     std = open(os.path.join(VERIF, "specs", "std.rs"), encoding="utf-8").read()
     parts = [HEADER.format(srcs=", ".join(s["rel"] for s in unit["sources"]), unit=name), std]
     if canary:
-        parts.append("pub open spec fn vx_canary_false() -> bool { false }\n")
+        parts.append("pub uninterp spec fn vx_canary(k: int) -> bool;\n")
     meta_all = {"log": [], "fns": [], "warnings": [], "errors": [], "items": [], "imported_fns": []}
     fn_props = dict(unit["fn_props"])
     # imported units: contracts only (bodies external)
@@ -258,7 +260,7 @@ def gen_unit(name, canary=False, outname=None):
             parts.append(dep["post"])
         meta_all["errors"] += m["errors"]
         meta_all["imported_fns"] += m["fns"]
-    t, h, m = gen_sources(unit, canary=canary)
+    t, h, m = gen_sources(unit, canary=({} if canary else None))
     parts.append(f"// ======== unit `{name}`: spec prelude ========\n")
     parts.append(unit["prelude"])
     parts.append(f"// ======== unit `{name}`: extracted code ========\n")
@@ -272,7 +274,7 @@ def gen_unit(name, canary=False, outname=None):
     for k in ("log", "fns", "warnings", "errors", "items"):
         meta_all[k] += m[k]
     os.makedirs(BUILD, exist_ok=True)
-    out = os.path.join(BUILD, (outname or name) + (".canary" if canary else "") + ".rs")
+    out = os.path.join(BUILD, (outname or name) + ("_canary" if canary else "") + ".rs")
     with open(out, "w", encoding="utf-8") as f:
         f.write("".join(parts))
     meta_all["path"] = out
